@@ -529,6 +529,17 @@ fn main() {
         r.run_config("edge-empty", &json, &m, &o);
     }
 
+    {
+        // 9 classes: `Classing::new` asserts at most 8
+        let classes = (0..9u8)
+            .map(|i| ClassConfig { id: i % 8, count: Count::Cores, order: Some((i as usize, i as usize)), gfp: GfpMatch::default() })
+            .collect();
+        let m = wrap(classes);
+        let json = facet_json::to_string(&m).expect("serialise");
+        let o = Opts { cores: vec![2], sweep_step: 16, grid: false, use_alloc: false };
+        r.run_config("edge-nine", &json, &m, &o);
+    }
+
     // ---- 5. investigation only (--dups N): duplicate ids with DIFFERENT kinds
     for i in 0..dups {
         let n = 2 + r.rng.below(3) as usize;
